@@ -174,6 +174,14 @@ def check_instance(inst, F, ctx, extra):
 def main(tier, seed, t0):
     st, d = runner.stage_inst(tier, seed)
     ctx, n = runner.run_instances('props.c15', d)
+    # privacy witnesses seen from a sibling module (rustc's own privacy errors), with compiling twins
+    from corpus import rejects as RJ
+    cases = RJ.c15_cases(tier)
+    bst, br = runner.stage_batch('c15-' + tier, cases)
+    runner.judge_batch(ctx, cases, br, PROP, lambda c: 'visibility / name of the item named in the witness (src/parser/params.rs::get_vis_name, src/generator/names.rs, disabled defaults in src/feature/*.rs::parse)')
+    ctx.programs |= {c['id'] for c in cases}
+    if len(cases) < 34:
+        ctx.error('privacy witness count %d below floor 34' % len(cases))
     return runner.finish(PROP, tier, seed, 'translation_validation', ctx, t0,
                          coverage_extra={'instances_in_corpus': n, 'cache_hit': st.hit, 'tree': st.tree},
                          nontrivial_rule='distinct (enum visibility, per-feature (vis parameter, name given, struct_name given)) vectors',
